@@ -25,15 +25,21 @@ LimInside(r, z) == PolyInside(r, z) /\ ~(2 * r > 9 /\ 2 * z > 1)
 \* toroidal angles with rational (cos, sin)
 Angles == << <<1, 0, 1>>, <<3, 4, 5>>, <<0, 1, 1>>, <<-4, 3, 5>>, <<-1, 0, 1>>, <<5, -12, 13>> >>      \* <<c, s, h>>: cos = c/h, sin = s/h
 
-VARIABLES neg, A, B, r, z, ang,
+\* the r axis of the grid: evenly spaced (1..7), or stretched (spacing 1 up to r = 4, spacing 2 beyond).  The code forms the
+\* gradient from differences in index space times the local d(index)/dr; for quadratic psi this is exact at nodes whose two
+\* neighbours are equally far away (GradExact) - the other nodes of the stretched axis only carry the gradient-free quantities
+RNodes(st) == IF st = 0 THEN 1..7 ELSE {1, 2, 3, 4, 6, 8, 10}
+GradExact(st, rr) == st = 0 \/ rr \in {2, 3, 6, 8}
+VARIABLES neg, A, B, r, z, ang, stretch,
           Z0,      \* height of the magnetic axis (0: up-down symmetric grid; 1: the axis sits one node above the midplane)
           C,       \* cross term: psi = s (A x^2 + B y^2 + C x y), x = r - R0, y = z - Z0 (tilted flux surfaces; 4 A B > C^2)
           off      \* the reported axis flux is s * off / 2: with off = 1 the gridded psi dips (marginally) beyond the reported
                    \* axis value around the magnetic axis, as it does in real EFIT output
-vars == <<neg, A, B, r, z, ang, off, Z0, C>>
-Init == neg \in Negs /\ A \in (IF Deep THEN {1, 2, 3, 5} ELSE {1, 2}) /\ B \in (IF Deep THEN {1, 2, 3, 7} ELSE {1, 3}) /\ r \in Rs /\ z \in Zc /\ ang \in 1..Len(Angles) /\ off \in {0, 1}
+vars == <<neg, A, B, r, z, ang, off, Z0, C, stretch>>
+Init == neg \in Negs /\ A \in (IF Deep THEN {1, 2, 3, 5} ELSE {1, 2}) /\ B \in (IF Deep THEN {1, 2, 3, 7} ELSE {1, 3}) /\ stretch \in {0, 1} /\ r \in RNodes(stretch) /\ z \in Zc /\ ang \in 1..Len(Angles) /\ off \in {0, 1}
         /\ (off = 1 => ang = 1)
         /\ Z0 \in {0, 1} /\ C \in {0, 1} /\ (off = 1 => C = 0)
+        /\ (stretch = 1 => off = 0 /\ ang \in {1, 2})
 Next == UNCHANGED vars
 Spec == Init /\ [][Next]_vars
 
@@ -71,7 +77,7 @@ SameLength == PolDir[1] * PolDir[1] + PolDir[3] * PolDir[3] = NrmDir[1] * NrmDir
 UpDownSymmetric == (Z0 = 0 /\ C = 0) => Psi(r, z) = Psi(r, -z)
 PositiveDefinite == 4 * A * B > C * C
 
-EmitCase == PrintT(ToJson([Z0 |-> Z0, C |-> C, off |-> off, neg |-> neg, inside_limiter |-> LimInside(r, z), A |-> A, B |-> B, r |-> r, z |-> z, angle |-> Angles[ang], psin |-> PsiN, inside |-> Inside,
+EmitCase == PrintT(ToJson([stretch |-> stretch, rnodes |-> RNodes(stretch), grad_exact |-> GradExact(stretch, r), Z0 |-> Z0, C |-> C, off |-> off, neg |-> neg, inside_limiter |-> LimInside(r, z), A |-> A, B |-> B, r |-> r, z |-> z, angle |-> Angles[ang], psin |-> PsiN, inside |-> Inside,
                            map2d |-> Map2D, psi_axis |-> PsiAxis, psi_lcfs |-> PsiLcfs, grad |-> <<PsiR, PsiZ>>,
                            pol |-> PolDir, nrm |-> NrmDir, degenerate |-> Degenerate]))
 =============================================================================
